@@ -201,6 +201,21 @@ def check_fixed_sites(tier, seed):
                     p = post[gens.index(tuple([a] * ploidy))]
                     if abs(float(hp[j, a]) - p) > 1e-7:
                         bad("rt/homozygosity_probability", "mchap.assemble.mcmc._homozygosity_probabilities", {"reads_site": reads[:, j, :].tolist(), "read_counts": counts.tolist(), "n_alleles_site": n, "array_width": A, "ploidy": ploidy, "inbreeding": F, "allele": a}, float(hp[j, a]), p, "single-SNV posterior probability of being homozygous for the allele (exact enumeration)")
+            # "reaches": a threshold EQUAL to a site's homozygosity probability fixes that site.  Decided with the screen's
+            # own probabilities (validated above against the enumeration), so rounding plays no part.
+            cand = [(j, a) for j in range(n_base) for a in range(int(n_alleles[j])) if float(hp[j, a]) > 0.5]
+            if cand:
+                j0, a0 = cand[int(rng.integers(0, len(cand)))]
+                thr_eq = float(hp[j0, a0])
+                exp_eq = {j: a for j in range(n_base) for a in range(int(n_alleles[j])) if float(hp[j, a]) >= thr_eq}
+                model = amcmc.DenovoMCMC(ploidy=ploidy, n_alleles=[int(x) for x in n_alleles], inbreeding=F, steps=5, chains=1, fix_homozygous=thr_eq, random_seed=1)
+                captured.clear()
+                np.random.seed(rep)
+                model._mcmc(reads, counts)
+                ev += 1
+                got_cols = captured["reads"].shape[1] if captured else 0
+                if got_cols != n_base - len(exp_eq):
+                    bad("rt/fixed_when_probability_equals_threshold", "mchap.assemble.mcmc.DenovoMCMC._mcmc", {"reads": reads.tolist(), "read_counts": counts.tolist(), "n_alleles": n_alleles.tolist(), "ploidy": ploidy, "inbreeding": F, "fix_homozygous": thr_eq, "site_at_threshold": j0}, {"variable_sites_passed_to_sampler": got_cols}, {"variable_sites": n_base - len(exp_eq)}, "a site whose homozygosity probability equals --mcmc-fix-homozygous is fixed (>=)")
             if margin < 1e-9:
                 continue  # exactly at the threshold: rounding decides
             model = amcmc.DenovoMCMC(ploidy=ploidy, n_alleles=[int(x) for x in n_alleles], inbreeding=F, steps=5, chains=1, fix_homozygous=thr, random_seed=1)
